@@ -19,6 +19,15 @@ CHECKS = {
     "C19": dict(engine="E3-cluster", technique=PBT + " (differential: state received through the real service+client vs independently built reference set, probe grid of further operations)",
         text="6000 (quick) / 300k (thorough) sender states up to 20000 entries fetched with the real get_state path, compared on live ids, tombstones, stamps, will_apply probes and one further operation; 3000 reply frames with every bit flip / truncation refused.",
         note="The reference set is built by applying the same operations directly to an OrSWotSet of the harness (trusts the CRDT, which C03-C05 cover).", ref="3 C19"),
+    "C11": dict(engine="E6-clock", technique=PBT + " (generated task scripts with barriers; schedule owned on a current-thread runtime, sampled on 4 workers)",
+        text="60k generated multi-task scripts on a current-thread runtime where the interleaving is a function of the generated yields, plus 500 x 8 runs on a 4-worker runtime; uniqueness, per-task monotonicity and register->get causality (program order and barrier chains) are checked on every run.",
+        note="OS schedules on the multi-thread runtime are sampled, not enumerated. Remote counters near exhaustion are only generated on the paused runtime (the repaired clock waits for the wall clock).", ref="3 C11"),
+    "C14": dict(engine="E4-turmoil", technique=PBT + " (generated fault scripts over seeded turmoil TCP + in-process reply-stall injection; per-request oracle on ids, digests, execution counts and elapsed simulated time)",
+        text="20k (quick) / 600k (thorough) client scripts with partitions, holds, releases, repairs, slow handlers and concurrent requests over hyper/h2 on turmoil's simulated TCP, plus 20k scripts on the in-process transport where the fault sits between reply head and reply body.",
+        note="turmoil 0.4.0 is used with one simulator fix (vendor/README.md). The turmoil client of the repository serialises requests per channel; faults act at segment granularity. Head/body stalls are only reachable through hook H-rpc.", ref="3 C14"),
+    "C17": dict(engine="E5-storage", technique=PBT + " (model-based: every bundled backend vs a HashMap reference after every call, incl. close/reopen)",
+        text="20k MemStore, 5k SQLite in-memory, 3k SQLite file and 5k LMDB call sequences per quick run (x30 thorough), with full read-back (iter_metadata, get of every id, multi_get, keyspace list) after every call and close/reopen at generated points.",
+        note="Scratch databases live in /dev/shm (tmpfs): fsync durability against power loss is not examined, only close/reopen.", ref="3 C17"),
     "C02": dict(engine="E2-actor", technique=PBT + " (model-based: storage contents vs deserialised set after every request, injected storage faults)",
         text="Randomised request histories (300k quick / 10M thorough) against the real KeyspaceGroup actors on an inspectable fault-injecting store; set and store are compared after every request. Exploration: finds counterexamples, proves nothing.",
         note="Trusts ModelStore (harness Storage implementation that honours the BulkMutationError contract) and the view obtained through Serialize + diff-against-empty.", ref="3 C02"),
@@ -43,8 +52,8 @@ CHECKS = {
     "C10": dict(engine="E1-pure", technique=PBT + " + exhaustive boundary grid (round-trips, order isomorphism, parser robustness)",
         text="1M generated stamp pairs, the exhaustive 5600-value boundary grid (31M ordered pairs), a regression corpus and 2M generated strings per quick run.",
         note="from_u64 on words whose fractional byte is >= 250 is outside the claim.", ref="3 C10"),
-    "C12": dict(engine="E1-pure", technique=PBT + " (round-trip + exhaustive single-bit-flip / truncation / crafted-short-frame mutation of every generated frame)",
-        text="6000 generated messages per quick run (300k thorough), each expanded into all single-bit flips (frames <= 4 KiB), all truncations and crafted short frames with correct checksums: about 60M mutated frames per quick run.",
+    "C12": dict(engine="E1-pure+E4", technique=PBT + " (round-trip + exhaustive single-bit-flip / truncation / crafted-short-frame mutation of every generated frame)",
+        text="6000 generated messages per quick run (300k thorough), each expanded into all single-bit flips (frames <= 4 KiB), all truncations and crafted short frames with correct checksums (about 60M mutated frames per quick run), plus 6000 end-to-end exchange scripts over hyper/h2 on simulated TCP (values up to 300 KB, handler errors, raw invalid frames in front of a typed handler).",
         note="Frame level (DataView::using); an independent CRC32 decides whether a damaged frame must be refused.", ref="3 C12"),
     "C15": dict(engine="E1-pure", technique=PBT + " (validity predicate in both directions over selection histories on shared cursors)",
         text="300k (quick) / 30M (thorough) layouts x selection histories through the public NodeSelector trait.",
@@ -80,11 +89,14 @@ def main():
     na = [{"property_id": p, "reason": NOT_YET} for p in props if p not in CHECKS]
     manifest = {
         "version": 1,
-        "setup_cmd": "cd /verif/harness && CARGO_NET_OFFLINE=true cargo build --release --offline",
+        "setup_cmd": "cd /verif/harness && CARGO_NET_OFFLINE=true cargo build --release --offline && cd /verif/harness-sim && CARGO_NET_OFFLINE=true cargo build --release --offline",
         "hooks": hooks,
         "engines": [
             {"name": "E1-pure", "path": "harness/src", "serves_properties": [p for p in props if CHECKS.get(p, {}).get("engine") == "E1-pure"], "kind_free_text": "direct synchronous calls into datacake-crdt / datacake-rpc / datacake-node types, cases decoded from proptest-generated choice sequences"},
             {"name": "E3-cluster", "path": "harness/src/e3.rs", "serves_properties": [p for p in props if CHECKS.get(p, {}).get("engine") == "E3-cluster"], "kind_free_text": "real DatacakeNode(s) + eventual-consistency extension / rpc Server inside one deterministic paused-time tokio runtime over the in-process transport hook"},
+            {"name": "E4-turmoil", "path": "harness-sim/src", "serves_properties": ["C12", "C14"], "kind_free_text": "datacake-rpc with its `simulation` feature over hyper/h2 over seeded turmoil TCP (separate cargo workspace, patched simulator in vendor/)"},
+            {"name": "E5-storage", "path": "harness/src/c17.rs", "serves_properties": ["C17"], "kind_free_text": "MemStore, SqliteStorage (memory + file) and LmdbStorage driven through the Storage trait on a real runtime, databases in /dev/shm"},
+            {"name": "E6-clock", "path": "harness/src/c11.rs", "serves_properties": ["C11"], "kind_free_text": "datacake_node::Clock shared by generated task scripts on current-thread (paused) and 4-worker runtimes"},
             {"name": "E2-actor", "path": "harness/src/e2.rs", "serves_properties": [p for p in props if CHECKS.get(p, {}).get("engine") == "E2-actor"], "kind_free_text": "real KeyspaceGroup/KeyspaceActor/Clock on a paused-time current-thread tokio runtime over an inspectable fault-injecting Storage"},
         ],
         "checks": checks,
